@@ -364,3 +364,72 @@ func sweepProgs(c *Ctx, every int) []*Prog {
 	}
 	return out
 }
+
+// bpSweepProgs: for every instruction constructor and every operand position that takes a general-purpose
+// register, a two-instruction function with the base pointer (in the view of that width) in that position.
+// Whether the position is written is for the instruction table to say; the frame rule must follow it
+// whatever the position (second output of an exchange, register after a memory destination, ...).
+func bpSweepProgs(c *Ctx, every int) []*Prog {
+	ctors := readCtors(c.Repo)
+	d := dumpForms(c.Repo)
+	opcIndexOf := map[string]int{}
+	for k, v := range d.OpcName {
+		opcIndexOf[v] = k
+	}
+	var names []string
+	for n := range ctors {
+		names = append(names, n)
+	}
+	sort.Strings(names)
+	rng := NewRNG(c.Seed + 1515)
+	bpView := map[string]reg.Register{"R8": reg.BPB, "R16": reg.BP, "R32": reg.EBP, "R64": reg.RBP}
+	var out []*Prog
+	for k, name := range names {
+		if k%every != int(c.Seed)%every {
+			continue
+		}
+		ci := ctors[name]
+		seen := map[string]bool{}
+		for _, df := range ci.Doc {
+			for pos, tn := range df[1:] {
+				view, isGP := bpView[strings.ToUpper(tn)]
+				if !isGP {
+					continue
+				}
+				sig := fmt.Sprint(df[1:], pos)
+				if seen[sig] {
+					continue
+				}
+				seen[sig] = true
+				coll := reg.NewCollection()
+				var ops []operand.Op
+				okf := true
+				for q, tq := range df[1:] {
+					if q == pos {
+						ops = append(ops, view)
+						continue
+					}
+					t := strings.ToUpper(tq)
+					ss := samplesFor(t, rng, coll)
+					if strings.HasPrefix(t, "REL") || len(ss) == 0 {
+						okf = false
+						break
+					}
+					ops = append(ops, ss[0])
+				}
+				if !okf {
+					continue
+				}
+				i, err, _ := x86.VerifBuild(opcIndexOf[ci.Opcode], ci.Suffixes, ops)
+				if err != nil || i == nil || i.IsBranch || i.IsTerminal {
+					continue
+				}
+				p := &Prog{Tags: map[string]bool{"bp-sweep": true, "explicit-bp": true}, Desc: fmt.Sprintf("base pointer as operand %d of %s %v", pos, name, df[1:])}
+				p.Attrs = Pick(rng, []attr.Attribute{attr.NOSPLIT, attr.NOSPLIT | attr.NOFRAME, 0})
+				p.Nodes = append(p.Nodes, i, &ir.Instruction{Opcode: "RET", IsTerminal: true})
+				out = append(out, p)
+			}
+		}
+	}
+	return out
+}
